@@ -36,7 +36,7 @@ LEVEL_TEXT = ("Numeric layer proved for all (address, prefix) pairs of both fami
               "IPv6 text: v6_parse (coq/Model/IPText6.v, a transcription of ipaddress's IPv6 parser and IPv6Obj's input handling, tied by the v6text stream) only accepts in-range values (v6_parse_sound), and every spelling "
               "ipaddress accepts denotes the expected value, for every group value, every hextet spelling (minimal lower/upper case, zero padded -- spellings, an exhaustive kernel computation over all 65536 groups), "
               "with or without /len and surrounding blanks: eight groups (v6_parse_full), hi::lo with either side possibly empty (v6_parse_compressed), six groups + dotted quad (v6_parse_embedded_full), "
-              "hi::lo:d.d.d.d (v6_parse_embedded_compressed; value_of_embedded: the quad is the low 32 bits); the blank-separated form addr<blanks>len reads exactly as addr/len (v6_parse_blank_form); an accepted address text consists of hexadecimal digits, ':' and '.' only (v6_addr_alphabet: one foreign character anywhere and the address is rejected). Never truncated: whatever v4_parse / v6_parse accept decomposes completely into an address text accepted as a whole followed by nothing, or by a separator and a whole mask / length (v4_parse_shape, dotted_whole, v6_parse_shape). IPv6 renderings: the renderer coq/Model/IPRender6.v (tied to str(ip), as_cidr_addr, as_cidr_net, netmask, hostmask by the render6 stream, all 256 zero-group patterns) re-parses to the same value for every 128-bit value (render6_parses, render6_cidr_parses).")
+              "hi::lo:d.d.d.d (v6_parse_embedded_compressed; value_of_embedded: the quad is the low 32 bits); the blank-separated form addr<blanks>len reads exactly as addr/len (v6_parse_blank_form); an accepted address text consists of hexadecimal digits, ':' and '.' only (v6_addr_alphabet: one foreign character anywhere and the address is rejected). Never truncated: whatever v4_parse / v6_parse accept decomposes completely into an address text accepted as a whole followed by nothing, or by a separator and a whole mask / length (v4_parse_shape, dotted_whole, v6_parse_shape). IPv6 renderings: the renderer coq/Model/IPRender6.v (tied to str(ip), as_cidr_addr, as_cidr_net, netmask, hostmask by the render6 stream, all 256 zero-group patterns) re-parses to the same value for every 128-bit value (render6_parses, render6_cidr_parses; renderings are injective). Exactness: the group logic accepts exactly 'eight groups' or 'hi :: lo with at most seven groups' (v6_groups_iff) and an accepted address text is the ':'-join of parts classifying to such fields (v6_addr_complete).")
 LEVEL_NOTE = ("PARTIAL: rejection of malformed IPv6 text (beyond 'accepted => in range and over the address alphabet') is decided by correspondence (v6text stream) and differential testing against ipaddress, not by a theorem; that the renderers of the model equal the strings the objects print is tied by the render4/render6 streams (and compared with ipaddress), not proved; "
               "the numeric theorems, the IPv4 textual theorems (v4_parse_render, v4_parse_sound about the hand model coq/Model/IPText.v, tied by the v4text stream) and the IPv6 textual theorems "
               "(v6_parse_sound, v6_parse_full, v6_parse_compressed, v6_parse_embedded_* about coq/Model/IPText6.v, tied by the v6text stream) are unbounded. Trusted: Coq kernel + vm_compute, translator, driver, ipaddress as reference.")
